@@ -388,3 +388,39 @@ func Product(dims []int, f func(ix []int) bool) (int64, bool) {
 		}
 	}
 }
+
+// Determinism replays every operation sequence up to depth twice on fresh
+// worlds and compares the canonical keys; it returns a description of the
+// first divergence ("" if none).  Harnesses use it as a guard against
+// uncaptured nondeterminism.
+func Determinism(cfg Config, depth int, limit int) string {
+	n := 0
+	var rec func(path []Op, d int) string
+	rec = func(path []Op, d int) string {
+		if limit > 0 && n >= limit {
+			return ""
+		}
+		n++
+		w1, v1 := replay(cfg, path)
+		c1 := w1.Canon()
+		ops := w1.Ops()
+		closeWorld(w1)
+		w2, v2 := replay(cfg, path)
+		c2 := w2.Canon()
+		closeWorld(w2)
+		if c1 != c2 || (v1 == nil) != (v2 == nil) {
+			b, _ := json.Marshal(path)
+			return fmt.Sprintf("path %s:\n--- first\n%s\n--- second\n%s", b, c1, c2)
+		}
+		if d == 0 || v1 != nil {
+			return ""
+		}
+		for _, op := range ops {
+			if s := rec(append(append([]Op{}, path...), op), d-1); s != "" {
+				return s
+			}
+		}
+		return ""
+	}
+	return rec(append([]Op{}, cfg.Prefix...), depth)
+}
